@@ -540,6 +540,12 @@ func runC14(c *Ctx) {
 				lenMismatch := []lease_set2.EncryptionKey{{KeyType: 4, KeyLen: 31, KeyData: r.Bytes(32)}}
 				_, d5 := lease_set2.NewLeaseSet2(d, 1, 1, 0, nil, opts, lenMismatch, mk2(1), nil)
 				c14Defect(c, "NewLeaseSet2", "key length field not matching the key data", d5 != nil, nil, "")
+				if i < 3 {
+					// ... by exactly 2^16: the declared length equals the real one truncated to 16 bits
+					wrap := []lease_set2.EncryptionKey{{KeyType: 4, KeyLen: 32, KeyData: r.Bytes(32 + 65536)}}
+					_, d5w := lease_set2.NewLeaseSet2(d, 1, 1, 0, nil, opts, wrap, mk2(1), nil)
+					c14Defect(c, "NewLeaseSet2", "key data longer than its length field by 65536 bytes", d5w != nil, nil, "")
+				}
 				if i < 4 {
 					x, d6 := lease_set2.NewLeaseSet2(d, 1, 1, 0x0008, nil, opts, goodKeys, mk2(1), nil)
 					vr := d6 == nil && x.Validate() != nil
